@@ -8,6 +8,9 @@ import "verifharness/ref"
 // depth. This is the shape that exposes path slices shared between hunks.
 func DeepChainPair(r *RNG, p Profile, nullFree bool) (any, any) {
 	depth := r.Range(1, 9)
+	if r.Chance(0.06) {
+		depth = r.Range(30, 40)
+	}
 	scal := func() any {
 		for {
 			v := Scalar(r, p)
